@@ -533,10 +533,16 @@ func (c *c17case) protect(where string, f func()) (ok bool) {
 }
 
 func c17call(rec *Record, op *c17op) {
+	// the caller goes on using its slice (and the nested slices / maps it built the values from): what
+	// the record holds must not follow
+	kvs := c17build(op.attrs)
 	if op.set {
-		rec.SetAttributes(c17build(op.attrs)...)
+		rec.SetAttributes(kvs...)
 	} else {
-		rec.AddAttributes(c17build(op.attrs)...)
+		rec.AddAttributes(kvs...)
+	}
+	for i := range kvs {
+		kvs[i] = log.String("scribbled-by-caller", "this text is far longer than any length limit of the jobs")
 	}
 }
 
@@ -964,8 +970,8 @@ func (c *c17case) checkString(path, kind, s, t string) {
 // ---------------------------------------------------------------------------
 
 var (
-	c17countLimits  = []int{-1, 0, 1, 2, 5, 6, 7}
-	c17lengthLimits = []int{-1, 0, 1, 3}
+	c17countLimits  = []int{-1, -2, 0, 1, 2, 5, 6, 7} // -2: every negative value means unlimited, not only -1
+	c17lengthLimits = []int{-1, -2, 0, 1, 3}
 )
 
 func c17jobName(mode string, cl, ll int) string {
